@@ -1,55 +1,29 @@
 """Per-property configuration of the orchestrator (bin/check).
 
+One JSON file per property in tools/props.d/<id>.json (so that branches never conflict):
+
 groups      harness generator groups whose cases decide the property (qvh gen <group> …)
 module      Lean module holding the property's theorems (QV.Properties.<id> by default)
 features    cargo features of /repo the harness needs for this property
 strict_err  compare error *variants* between implementation and model for the verdict
             (only where the property names the error; otherwise informational)
 design_ref  DESIGN.md section
+technique, level_text, level_note, assumptions, evidence_notes   free text for MANIFEST/evidence
 """
+import glob
+import json
+import os
 
-PROPS = {
-    "C14": {
-        "groups": ["wire"],
-        "design_ref": "§6 C14",
-        "technique": "Lean 4 proof: parser ↔ inductive RFC 1035 §4.1.4 relation (sound+complete, no panic, termination); model tied to src/name/wire.rs by differential correspondence incl. exhaustive ≤5-octet buffers",
-    },
-    "C29": {
-        "groups": ["pool"],
-        "harness_features": ["pool"],
-        "design_ref": "§6 C29",
-        "technique": "Lean 4 proof: src/thread.rs as a nondeterministic transition system at lock granularity (2 mutexes, 3 condvars with waiter sets / nondeterministic notify_one / spurious wake-ups / timeouts firing at any moment, per-thread program counters for arbitrarily many threads, tasks tracked by id); inductive invariants over ALL reachable states: available = registered workers, every queued task covered by an awake registered worker (the invariant D11 broke; pre-fix relation proved to strand a task), thread_count = live group threads, mutual exclusion + lock order group→pool, each task in exactly one place and started at most once, thread_count = 0 ⇒ queue empty ∧ every accepted task done. Tied to the code by trace validation: the UNMODIFIED src/thread.rs (imports rewritten to a shim) runs under the shuttle scheduler (random, PCT, bounded DFS; timeouts fire at every scheduling point) and every logged execution must be a path of the model",
-        "level_text": "Theorems about a Lean 4 model of ThreadGroup/ThreadPool for all interleavings and any number of threads and tasks (inductive invariants; no bounded exploration is presented as proof). Partial with respect to the real runtime: std::sync::Mutex/Condvar semantics, OS scheduling and real time are assumptions of the model; the model is tied to the current source on every run by executing the unmodified src/thread.rs under a controlled scheduler and validating each execution's lock-granularity log (with snapshots of the private records) as a path of the model, and by checking the property's end conditions on each execution. Deadlock-freedom is proved at the level of the mutexes (lock order, mutual exclusion) and of the wake-up protocol for queued tasks; full progress for all condition-variable waits is not yet a theorem (checked by the scheduler's deadlock detection on every explored execution).",
-        "assumptions": [
-            "std::sync::Mutex: mutual exclusion, no fairness assumed; Condvar: Mesa semantics, waiter sets, notify_one wakes exactly one waiter if there is one, spurious wake-ups possible, a timed-out waiter has left the waiter set before it re-acquires the mutex; timeouts eventually fire",
-            "submitters, shutters and awaiters are threads outside the group; tasks terminate, do not panic and do not call into the pool; one pool per group; thread creation may fail (modelled) except during start_pool",
-            "ThreadPool::shut_down is called at most once and not after/concurrently with ThreadGroup::shut_down (otherwise Slab::remove panics while the group mutex is held — observation outside this property, see report)",
-            "trace validation runs the copied source under shuttle 0.9.3 with a condvar/Instant shim of the harness (harness/src/pool_shim.rs): real Condvar/OS timing is not exercised",
-        ],
-        "evidence_notes": [
-            "each case is one execution of the real thread.rs under a recorded schedule (scenario + scheduler seed); impl column = re-execution reproduces the trace; model column = trace is a path of QV.Pool.next with matching record snapshots, notify calls and call results; spec column = end conditions of the property on the trace",
-        ],
-    },
-    "C32": {
-        "groups": ["snapshot"],
-        "design_ref": "§6 C32",
-        "technique": "Lean 4 proof: nondeterministic transition system (any number of handlers and swappers, every interleaving) with an inductive invariant: each response = f c k req for ONE catalog and ONE key set, each current at some instant of the handling window (linearizable reads); handlers started after set_catalog g returned use g. Structural premise 'one read per message' extracted from src/server/*.rs on every run; generation-marker stress with OS threads validated against the model's admissible set",
-        "level_text": "Theorems (all interleavings, unbounded handlers/swappers) about a Lean 4 model of the RwLock<Arc<_>> snapshot discipline; partial with respect to the real runtime: std::sync::RwLock atomicity, Arc immutability and the memory model are assumed, and the code is tied to the model by (a) the extractor's read counts (a second read of the catalog/key cell breaks the build of C32_structural_premise) and (b) a stress run on real OS threads whose every response is checked against the model's admissible set.",
-        "assumptions": [
-            "std::sync::RwLock: a read returns the value of the latest completed write (atomic cell); Arc<C> contents are immutable (no interior mutability in Catalog/TsigKeyMap)",
-            "the response is a function of (catalog snapshot, key-set snapshot, request, clock): handle_message consults no other mutable server state that a swap changes (checked structurally: self.catalog()/self.tsig_keys() occur once each; RRL state is outside this property)",
-            "stress windows: SeqCst atomics published before/after each swap give a superset of the generations current during a request; OS scheduling decides which interleavings are exercised (measured, not exhaustive)",
-        ],
-        "evidence_notes": [
-            "snapobs cases: one per response observed under concurrent swaps (impl column is always ok: the observation is the recorded input); model column = admissible under some interleaving (C32_window_admits), spec column = single snapshot & not stale",
-        ],
-    },
-}
+_HERE = os.path.dirname(os.path.abspath(__file__))
+PROPS = {}
+for _p in sorted(glob.glob(os.path.join(_HERE, "props.d", "C*.json"))):
+    with open(_p, encoding="utf-8") as _f:
+        PROPS[os.path.basename(_p)[:-5]] = json.load(_f)
 
 TRUSTED_BASE = [
     "Lean 4.33.0 kernel (leanchecker re-check in the thorough tier)",
     "axioms allowed: propext, Classical.choice, Quot.sound (audited per theorem with #print axioms); no sorry/admit/native_decide/bv_decide/own axioms",
     "QV/Spec/*: that the specification says what the property says (DESIGN.md §6 records every interpretation)",
     "correspondence check (harness/ + Lean driver + canonicaliser): differential testing that the hand-written model mirrors /repo's current source; the extractor (tools/extract.py) ties constants and tables",
-    "rustc/cargo dev profile (overflow checks on); std, arrayvec, hashbrown, hmac/sha crates as used by quandary",
+    "rustc/cargo dev profile (overflow checks on); std, arrayvec, hashbrown, hmac/sha crates as used by quandary"
 ]
